@@ -343,7 +343,7 @@ func judge(s *source, k kindT, o outcome, path string, sum *vh.Summary, idx int)
 	var v *big.Rat
 	special := "" // nan, +inf, -inf
 	switch {
-	case s.format == "json":
+	case s.format == "json" || s.rat != nil:
 		v = s.rat
 	case s.isInt:
 		v = new(big.Rat).SetInt(s.iv)
@@ -427,7 +427,7 @@ func judge(s *source, k kindT, o outcome, path string, sum *vh.Summary, idx int)
 		return
 	}
 	// sign of zero
-	if v.Sign() == 0 && !s.isInt && s.format != "json" && math.Signbit(s.fv) != math.Signbit(st) {
+	if v.Sign() == 0 && !s.isInt && s.format != "json" && s.rat == nil && math.Signbit(s.fv) != math.Signbit(st) {
 		fail("zero-sign", "sign of a float zero changed")
 	}
 }
@@ -857,6 +857,7 @@ func main() {
 		}
 	}
 	srcs = append(srcs, halfSources(hs)...)
+	srcs = append(srcs, cborTagSources()...)
 	for _, l := range jsonLiterals(boundaryInts(), r.Fork(), *nJSON) {
 		srcs = append(srcs, jsonSource(l))
 	}
@@ -929,7 +930,7 @@ func main() {
 			dkey := ""
 			if !triv {
 				mc := "special"
-				if s.format == "json" {
+				if s.format == "json" || s.rat != nil {
 					mc = magClass(s.rat)
 				} else if s.isInt {
 					mc = magClass(new(big.Rat).SetInt(s.iv))
